@@ -43,6 +43,7 @@ class LocalAdapter(Hub):
         self.pool = PoolWorld(w.trace, self.cores, set(), clock=w.clock, memfs=False, working_dir=w.proj,
                               hash_salt=w.knobs.get("hash_seed", 0) + self.generation)
         self.pool.__enter__()
+        self.pool.sock_capacity = 4096  # unread bytes a connection's socket buffers take (stalled readers)
         self.pool.on_enqueued_cb = self._enqueued
         self.pool.on_cancel_cb = self._on_cancel_request
         self.pool.table.listeners.append(self)
